@@ -389,6 +389,10 @@ def caller_history(r, pfx, avoid):
                     if chance(r, 0.6):
                         a0 = r.randrange(0, 3)
                         sel = {"style": "getitem_rows", "rows": {"t": "slice", "v": [a0, a0 + r.randrange(1, 4), pick(r, [None, 1, 2])]}}
+                        if chance(r, 0.4):
+                            # ... or the tail of the file: the rows that were appended through this very handle
+                            sel = {"style": "getitem_rows", "rows": {"t": "slice", "v": pick(r, [[-2, None, None], [-1, None, None],
+                                                                                                  [-3, -1, None], [-4, None, 2]])}}
                     else:
                         sel = {"style": pick(r, ["read_kw", "getitem_rows"]),
                                "rows": {"t": "list", "v": [0] if chance(r, 0.5) else [0, 0], "c": "list", "dt": "i8"}}
